@@ -61,7 +61,10 @@ package responsemanager
 //@ func ResponseManager.abortRequest
 //@   lenient
 //@   requires invRS(rm)
-//@   modifies rm.inProgressResponses[*], rm.inProgressResponses[requestID].state, prot, alloc
+//@   modifies rm.inProgressResponses[*], rm.inProgressResponses[requestID].state, prot, alloc, nRemove
+//@   -- C23: aborting a known response takes its (possibly still pending) task out of the queue
+//@   ensures old(requestID in rm.inProgressResponses) ==> nRemove == old(nRemove) + 1
+//@   callsite TaskQueue.Remove: assert $t == requestID && $p == response.peer
 //@   ensures invRS(rm) && othersSameRS(rm, requestID)
 //@   -- C05: a network failure retires a response that is not running, also one that only waits for its final message
 //@   ensures err == queryexecutor.ErrNetworkError && err != nil && old(requestID in rm.inProgressResponses) && old(rm.inProgressResponses[requestID].state) != graphsync.Running ==>
@@ -70,7 +73,12 @@ package responsemanager
 //@ func ResponseManager.unpauseRequest
 //@   lenient
 //@   requires invRS(rm)
-//@   modifies rm.inProgressResponses[requestID].state, alloc
+//@   modifies rm.inProgressResponses[requestID].state, alloc, nPush
+//@   -- C23: Paused -> Queued goes together with exactly one push of this request's task for its peer
+//@   ensures (result == nil) <==> (nPush == old(nPush) + 1)
+//@   ensures result != nil ==> nPush == old(nPush)
+//@   callsite TaskQueue.PushTask argis "inProgressResponse.peer": assert $p == inProgressResponse.peer
+//@   callsite TaskQueue.PushTask argis "peertask.Task{Topic: requestID": assert true
 //@   ensures invRS(rm) && othersSameRS(rm, requestID) && (forall q peer.ID, t ref :: prot[q][t] <==> old(prot)[q][t])
 //@   ensures result == nil ==> old(requestID in rm.inProgressResponses) && old(rm.inProgressResponses[requestID].state) == graphsync.Paused
 //@              && rm.inProgressResponses[requestID].state == graphsync.Queued
@@ -84,7 +92,11 @@ package responsemanager
 //@ func ResponseManager.newRequest
 //@   lenient
 //@   requires invRS(rm) && mine(rm, p, request.id)
-//@   modifies rm.inProgressResponses[*], prot, alloc
+//@   modifies rm.inProgressResponses[*], prot, alloc, nPush
+//@   -- C23: a new response is Queued exactly when its task was pushed (otherwise it is Paused or CompletingSend)
+//@   ensures (rm.inProgressResponses[request.id].state == graphsync.Queued) <==> (nPush == old(nPush) + 1)
+//@   ensures rm.inProgressResponses[request.id].state == graphsync.Queued || rm.inProgressResponses[request.id].state == graphsync.Paused || rm.inProgressResponses[request.id].state == graphsync.CompletingSend
+//@   callsite TaskQueue.PushTask argis "peertask.Task{Topic: request.ID()": assert $p == p
 //@   ensures invRS(rm) && othersSameRS(rm, request.id)
 //@   ensures request.id in rm.inProgressResponses && rm.inProgressResponses[request.id].peer == p
 
@@ -113,8 +125,11 @@ package responsemanager
 //@   lenient
 //@   safety off
 //@   requires invRS(rm)
-//@   modifies rm.inProgressResponses[*], inProgressResponseStatus.state, prot, alloc
+//@   modifies rm.inProgressResponses[*], inProgressResponseStatus.state, prot, alloc, nTaskDone
 //@   ensures invRS(rm)
+//@   -- C23/C21: a finished task is ALWAYS reported done to the queue (whatever became of its response), exactly once
+//@   ensures nTaskDone == old(nTaskDone) + 1
+//@   callsite TaskQueue.TaskDone: assert $p == p && $task == task
 
 //@ -- C05: outcome notifications come from message notifications: completed listeners exactly when a TERMINAL status was
 //@ -- sent, after the request has been retired; a failed send closes the request with a network error
@@ -125,3 +140,6 @@ package responsemanager
 //@   callsite RequestCloser.TerminateRequest: assert isSuccess(responseCode) || isFailure(responseCode)
 //@   callsite CompletedListeners.NotifyCompletedListeners: assert (isSuccess(responseCode) || isFailure(responseCode)) && $status == responseCode && $p == s.p
 //@   callsite RequestCloser.CloseWithNetworkError: assert responseEvent.Name == messagequeue.Error
+
+//@ -- ============================ C23 / C21: recorded state moves together with the task queue ============================
+//@ -- a finished task is ALWAYS reported done to the queue (whatever became of its response), exactly once
